@@ -1,14 +1,348 @@
-import TapkeeVerif.Model.Spe
-import TapkeeVerif.Model.RandProj
-import TapkeeVerif.Model.Fa
+import Mathlib.Algebra.Order.Floor.Ring
+import Mathlib.Algebra.Order.Field.Rat
+import Mathlib.Data.Rat.Floor
+import Mathlib.Tactic.NormNum
+import TapkeeVerif.Proofs.SpeIndex
+import TapkeeVerif.Proofs.SpeLocal
+import TapkeeVerif.Proofs.SpeAlgebra
+import TapkeeVerif.Proofs.RandProjLemmas
 /-!
-# C19 — SPE, Random Projection, Factor Analysis for every random stream  (work in progress)
+# C19 — SPE, Random Projection, Factor Analysis meet their spec for every random stream
+
+Subjects: the executable models `Model/Spe.lean`, `Model/RandProj.lean`, `Model/Fa.lean` (the same terms the
+driver `model_c19` runs against the real code on every check).  The randomness is an INPUT of the models
+(`shuffle : ℕ → List ℕ`, the floor values of the uniform stream, the Gaussian stream, the `Random()` matrix, the EM
+map), so "for every random stream" is a universal quantifier below — over all streams, all `N`, all iteration counts.
+
+**What is NOT a theorem here** (and is therefore a statistical TEST in `checks/c19.py`, labelled as such in the
+evidence): convergence of the stochastic SPE iteration (stress → 0 for every initialisation — not a theorem in the
+literature either), and the distributional claim about `gaussian_random()` (independent, zero-mean, equal-variance
+Gaussian entries).  `sqrt` is an oracle with the contract `0 ≤ s ∧ s * s = x`; IEEE rounding is outside the model.
+
+Status of the planned statements
+* `spe_indices_perm_global`, `spe_global_pairs_distinct` — proved at full strength.
+* `spe_indices_perm_local` — FALSE of the code as it stands (finding F-SPE-LOCAL): `spe_indices_perm_local_refuted`
+  with a concrete witness, `spe_local_duplicate_first_members` (the consequence: one point selected twice in one
+  iteration, two points gone for good), and `spe_indices_local_partial` (what does hold: no out-of-range access,
+  entries `< N`, every partner is one of the first `k` neighbours of its first member, no self pairs).
+  Full statement kept here:  `∀ valid neighbours, ∀ streams, ∀ t, (indices at t).Perm (List.range N)`.
+* `spe_pair_step_contracts` — the planned form `|D' − R| ≤ |D − R|·(1 − λ·c)` is false for `tolerance > 0`
+  (at `D = R` the update moves the pair: the regulariser biases the step); what holds is proved: the exact error
+  recursion `D' − R = (1−λ)(D−R) − λ·R·tol/(D+tol)` and the bounds that follow from it.
+* `spe_fixed_point` — an isometric pair moves by at most `λ·tol/2` per coordinate (→ 0 with `tol`), and not at all
+  for `tol = 0`.
+* `rp_translation_invariant`, `rp_is_linear_in_centred_data`, `fa_translation_invariant` — proved at full strength
+  (every stream, every abstract EM map, every `N` including 0).
 -/
+set_option linter.unusedSectionVars false
 namespace TapkeeVerif.C19
-open TapkeeVerif.Spe
+open TapkeeVerif TapkeeVerif.Spe
 
-theorem clamp_le_half (N nup : Nat) : clampUpdates N nup ≤ N / 2 := by
-  unfold clampUpdates
-  split <;> omega
+/-! ## SPE — index bookkeeping, global strategy -/
 
+/-- For every shuffle stream (each `shuffle t` a permutation of the positions — the contract of `std::shuffle`),
+    every `N`, every requested `spe_num_updates` and every iteration `t`: in the global strategy the index vector
+    is a permutation of `0..N-1`. -/
+theorem spe_indices_perm_global (nb : List (List Nat)) (k N nupReq : Nat) (shuffle : Nat → List Nat)
+    (fv : Nat → Int) (hs : ∀ t, (shuffle t).Perm (List.range N)) (t : Nat) :
+    ∃ idx, indicesAt true nb k N (clampUpdates N nupReq) shuffle fv t = .ok idx ∧ idx.Perm (List.range N) :=
+  indicesAt_global_perm nb k N _ shuffle fv hs t
+
+example : ∀ t, ((fun _ => [2, 0, 1] : Nat → List Nat) t).Perm (List.range 3) :=
+  fun _ => (by decide : List.Perm [2, 0, 1] (List.range 3))
+
+/-- Consequences for the pairs updated at iteration `t` (global strategy): reading the pairs never leaves the
+    vector, every index is `< N`, `ind1 j ≠ ind2 j` (no self pairs), and the `2·nup` indices are pairwise
+    distinct. -/
+theorem spe_global_pairs_distinct (nb : List (List Nat)) (k N nupReq : Nat) (shuffle : Nat → List Nat)
+    (fv : Nat → Int) (hs : ∀ t, (shuffle t).Perm (List.range N)) (t : Nat) :
+    ∃ idx ps, indicesAt true nb k N (clampUpdates N nupReq) shuffle fv t = .ok idx ∧
+      pairsOf (clampUpdates N nupReq) idx (clampUpdates N nupReq) 0 = .ok ps ∧
+      ps.length = clampUpdates N nupReq ∧
+      (∀ x ∈ idx, x < N) ∧
+      (∀ j, j < clampUpdates N nupReq →
+        ind1 idx j < N ∧ ind2 (clampUpdates N nupReq) idx j < N ∧ ind1 idx j ≠ ind2 (clampUpdates N nupReq) idx j) ∧
+      (∀ p q, p < 2 * clampUpdates N nupReq → q < 2 * clampUpdates N nupReq → p ≠ q →
+        idx.getD p 0 ≠ idx.getD q 0) := by
+  obtain ⟨idx, h, hp⟩ := indicesAt_global_perm nb k N (clampUpdates N nupReq) shuffle fv hs t
+  have hlen : idx.length = N := by simpa using hp.length_eq
+  have h2 := clampUpdates_two_mul_le N nupReq
+  obtain ⟨ps, hps, hl⟩ := pairsOf_ok (clampUpdates N nupReq) idx (by omega) (clampUpdates N nupReq) 0 (by omega)
+  refine ⟨idx, ps, h, hps, hl, perm_range_lt hp, ?_, ?_⟩
+  · intro j hj
+    refine ⟨getD_lt_of_all (perm_range_lt hp) (by omega), getD_lt_of_all (perm_range_lt hp) (by omega), ?_⟩
+    exact perm_getD_ne hp (by omega) (by omega) (by omega)
+  · intro p q hp' hq' hpq
+    exact perm_getD_ne hp (by omega) (by omega) hpq
+
+/-! ## SPE — index bookkeeping, local strategy -/
+
+/-- `spe_indices_perm_local` at full strength: the statement one would like to have (and that the proposed patch
+    `fixes/F-SPE-LOCAL.diff` restores). -/
+def LocalPermClaim : Prop :=
+  ∀ (nb : List (List Nat)) (N k nupReq : Nat) (shuffle : Nat → List Nat) (fv : Nat → Int),
+    ValidNeighbors nb N k → (∀ t, (shuffle t).Perm (List.range N)) → (∀ c, 0 ≤ fv c ∧ fv c < k) →
+    ∀ t, ∃ idx, indicesAt false nb k N (clampUpdates N nupReq) shuffle fv t = .ok idx ∧ idx.Perm (List.range N)
+
+/-- the witness: 3 points, 2 neighbours each -/
+def witnessNb : List (List Nat) := [[2, 1], [0, 2], [0, 1]]
+
+theorem witnessNb_valid : ValidNeighbors witnessNb 3 2 :=
+  ⟨rfl, by decide, by decide, by decide⟩
+
+/-- FALSE on the code as written (F-SPE-LOCAL): already the first iteration turns `[0,1,2]` into `[0,2,2]`
+    (identity shuffle, first neighbour picked): the overwrite of `indices[nupdates + j]` destroys the permutation. -/
+theorem spe_indices_perm_local_refuted : ¬ LocalPermClaim := by
+  intro h
+  obtain ⟨idx, h1, h2⟩ := h witnessNb 3 2 1 (fun _ => [0, 1, 2]) (fun _ => 0) witnessNb_valid
+    (fun _ => by decide) (fun _ => by decide) 0
+  have hval : indicesAt false witnessNb 2 3 (clampUpdates 3 1) (fun _ => [0, 1, 2]) (fun _ => 0) 0
+      = .ok [0, 2, 2] := by decide
+  rw [hval] at h1
+  cases h1
+  have : ([0, 2, 2] : List Nat).Nodup := (h2.nodup_iff).mpr List.nodup_range
+  exact absurd this (by decide)
+
+/-- the consequence that spreads: 4 points in two mutually-nearest pairs, `nupdates = 2`; after iteration 0 the
+    vector is `[0,1,1,0]` — points 2 and 3 have left it for good (only neighbours of 0 and 1 can enter) — and at
+    iteration 1 (shuffle `[0,3,1,2]`) point 0 is the first member of BOTH updated pairs. -/
+theorem spe_local_duplicate_first_members :
+    indicesAt false [[1], [0], [3], [2]] 1 4 (clampUpdates 4 2)
+        (fun t => if t = 0 then [0, 1, 2, 3] else [0, 3, 1, 2]) (fun _ => 0) 1 = .ok [0, 0, 1, 1] ∧
+      pairsOf 2 [0, 0, 1, 1] 2 0 = .ok [(0, 1), (0, 1)] := by
+  decide
+
+/-- What DOES hold in the local strategy, for every stream and every iteration (`_partial` twin of
+    `spe_indices_perm_local`): the bookkeeping never reads or writes out of range (`ind1Neighbors`, `neighbors`,
+    `indices`: the model's `oob` state is not reached), the vector keeps length `N` and entries `< N`, every
+    partner `ind2 j` is one of the first `k` neighbours of `ind1 j`, and there are no self pairs. -/
+theorem spe_indices_local_partial {N k nupReq : Nat} {nb : List (List Nat)} (hv : ValidNeighbors nb N k)
+    (shuffle : Nat → List Nat) (hs : ∀ t, (shuffle t).Perm (List.range N))
+    (fv : Nat → Int) (hfv : ∀ c, 0 ≤ fv c ∧ fv c < k) (t : Nat) :
+    ∃ idx ps, indicesAt false nb k N (clampUpdates N nupReq) shuffle fv t = .ok idx ∧
+      pairsOf (clampUpdates N nupReq) idx (clampUpdates N nupReq) 0 = .ok ps ∧
+      idx.length = N ∧ (∀ x ∈ idx, x < N) ∧
+      ∀ j, j < clampUpdates N nupReq →
+        ind1 idx j < N ∧ ind2 (clampUpdates N nupReq) idx j < N ∧
+        ind2 (clampUpdates N nupReq) idx j ∈ (nb.getD (ind1 idx j) []).take k ∧
+        ind1 idx j ≠ ind2 (clampUpdates N nupReq) idx j := by
+  have h2 := clampUpdates_two_mul_le N nupReq
+  obtain ⟨idx, h, hb, hp⟩ := indicesAt_local hv h2 shuffle hs fv hfv t
+  obtain ⟨ps, hps, _⟩ := pairsOf_ok (clampUpdates N nupReq) idx (by rw [hb.1]; omega) (clampUpdates N nupReq) 0
+    (by omega)
+  refine ⟨idx, ps, h, hps, hb.1, hb.2, ?_⟩
+  intro j hj
+  have hjl : j < idx.length := by rw [hb.1]; omega
+  have hm := rowOf_mem hv hb.2 hjl (hp j hj)
+  exact ⟨getD_lt_of_all hb.2 hjl, hm.1, hp j hj, fun he => hm.2 he.symm⟩
+
+example : ValidNeighbors witnessNb 3 2 := witnessNb_valid
+
+/-- the hypothesis on the floor values is what `uniform_random() ∈ [0,1)` gives: `⌊u·(k−1)⌋ ∈ [0, max 1 (k−1))`
+    — as written the `k`-th neighbour is never picked -/
+theorem spe_floor_pick_in_range {K : Type} [Field K] [LinearOrder K] [IsStrictOrderedRing K] [FloorRing K]
+    (inp : Input K) (hfl : inp.floorO = Int.floor) (k : Nat) (hk : 1 ≤ k) (c : Nat)
+    (hu : 0 ≤ inp.unif c ∧ inp.unif c < 1) :
+    0 ≤ floorPick inp k c ∧ floorPick inp k c < max 1 ((k : Int) - 1) ∧ floorPick inp k c < k := by
+  unfold floorPick
+  rw [hfl]
+  have hk1 : (0 : K) ≤ (((k : Int) - 1 : Int) : K) := by
+    have : (0 : Int) ≤ (k : Int) - 1 := by omega
+    exact_mod_cast this
+  have h0 : 0 ≤ ⌊inp.unif c * (((k : Int) - 1 : Int) : K)⌋ := Int.floor_nonneg.mpr (mul_nonneg hu.1 hk1)
+  have hlt : ⌊inp.unif c * (((k : Int) - 1 : Int) : K)⌋ < max 1 ((k : Int) - 1) := by
+    rw [Int.floor_lt]
+    rcases Nat.eq_or_lt_of_le hk with h | h
+    · subst h
+      simp
+    · have hmax : max (1 : Int) ((k : Int) - 1) = (k : Int) - 1 := by omega
+      rw [hmax]
+      have hpos : (0 : K) < (((k : Int) - 1 : Int) : K) := by
+        have : (0 : Int) < (k : Int) - 1 := by omega
+        exact_mod_cast this
+      calc inp.unif c * (((k : Int) - 1 : Int) : K) < 1 * (((k : Int) - 1 : Int) : K) :=
+            mul_lt_mul_of_pos_right hu.2 hpos
+        _ = (((k : Int) - 1 : Int) : K) := one_mul _
+  refine ⟨h0, hlt, ?_⟩
+  have : max (1 : Int) ((k : Int) - 1) ≤ k := by omega
+  omega
+
+/-! ## SPE — one-step algebra of the pair update -/
+section algebra
+variable {K : Type} [Field K] [LinearOrder K] [IsStrictOrderedRing K] {d : Nat}
+
+/-- One update of a pair `(y_i, y_j)` as the code performs it (`pairStep`), with learning rate `0 < λ ≤ 1`,
+    `tolerance > 0`, target distance `R ≥ 0`; `D`, `D2` are ANY values the sqrt oracle may return for the embedded
+    distance before / after (`0 ≤ D`, `D² = ‖y_i − y_j‖²`).  Then
+    1. exact error recursion  `D2 − R = (1−λ)(D − R) − λ·R·tol/(D+tol)`;
+    2. `|D2 − R| ≤ (1−λ)|D − R| + λ·tol·R/(D+tol)`;
+    3. if `R ≤ D + tol`: `|D2 − R| ≤ (1−λ)|D − R| + λ·tol`  (contraction by `1−λ` up to the regulariser's bias);
+    4. if `D + tol ≤ R`: `|D2 − R| ≤ |D − R|`  (the error does not grow);
+    5. always `|D2 − R| ≤ max |D − R| tol`;
+    6. the update is symmetric: the midpoint of the pair does not move. -/
+theorem spe_pair_step_contracts (lam R D tol D2 : K) (yi yj : Vec d K)
+    (hlam : 0 < lam ∧ lam ≤ 1) (htol : 0 < tol) (hR : 0 ≤ R)
+    (hD : 0 ≤ D ∧ D * D = sqNorm (vsub yi yj))
+    (hD2 : 0 ≤ D2 ∧
+      D2 * D2 = sqNorm (vsub (pairStep lam R D tol yi yj).1 (pairStep lam R D tol yi yj).2)) :
+    D2 - R = (1 - lam) * (D - R) - lam * R * tol / (D + tol) ∧
+    |D2 - R| ≤ (1 - lam) * |D - R| + lam * tol * (R / (D + tol)) ∧
+    (R ≤ D + tol → |D2 - R| ≤ (1 - lam) * |D - R| + lam * tol) ∧
+    (D + tol ≤ R → |D2 - R| ≤ |D - R|) ∧
+    |D2 - R| ≤ max |D - R| tol ∧
+    (∀ c, (pairStep lam R D tol yi yj).1 c + (pairStep lam R D tol yi yj).2 c = yi c + yj c) := by
+  have hD' : 0 < D + tol := by linarith [hD.1]
+  have hnew := new_distance lam R D tol D2 yi yj hlam.1.le hlam.2 hR hD' hD.1 hD.2 hD2.1 hD2.2
+  have hid : D2 - R = (1 - lam) * (D - R) - lam * R * tol / (D + tol) := by
+    rw [hnew]; exact error_identity lam R D tol hD'.ne'
+  -- q = R·tol/(D+tol) ≥ 0, q·(D+tol) = R·tol
+  obtain ⟨q, hq⟩ : ∃ q, q = R * tol / (D + tol) := ⟨_, rfl⟩
+  have hq0 : 0 ≤ q := by rw [hq]; exact div_nonneg (mul_nonneg hR htol.le) hD'.le
+  have hqm : q * (D + tol) = R * tol := by rw [hq]; field_simp
+  have hid' : D2 - R = (1 - lam) * (D - R) - lam * q := by rw [hid, hq]; ring
+  have h1l : 0 ≤ 1 - lam := by linarith [hlam.2]
+  have habs1 : |(1 - lam) * (D - R)| = (1 - lam) * |D - R| := by rw [abs_mul, abs_of_nonneg h1l]
+  have hb2 : |D2 - R| ≤ (1 - lam) * |D - R| + lam * q := by
+    rw [hid']
+    calc |(1 - lam) * (D - R) - lam * q| ≤ |(1 - lam) * (D - R)| + |lam * q| := abs_sub _ _
+      _ = (1 - lam) * |D - R| + lam * q := by
+        rw [habs1, abs_of_nonneg (mul_nonneg hlam.1.le hq0)]
+  have hq_le_tol : R ≤ D + tol → q ≤ tol := by
+    intro h
+    by_contra hc
+    rw [not_le] at hc
+    have : tol * (D + tol) < q * (D + tol) := mul_lt_mul_of_pos_right hc hD'
+    nlinarith [mul_le_mul_of_nonneg_right h htol.le]
+  have hb3 : R ≤ D + tol → |D2 - R| ≤ (1 - lam) * |D - R| + lam * tol := by
+    intro h
+    have := mul_le_mul_of_nonneg_left (hq_le_tol h) hlam.1.le
+    linarith
+  have hb4 : D + tol ≤ R → |D2 - R| ≤ |D - R| := by
+    intro h
+    -- D ≤ R − tol < R, and q ≤ R − D because (R − D − q)(D+tol) = D (R − D − tol) ≥ 0
+    have hDR : D - R ≤ 0 := by linarith
+    have hq2 : q ≤ R - D := by
+      by_contra hc
+      rw [not_le] at hc
+      have h1 : (R - D) * (D + tol) < q * (D + tol) := mul_lt_mul_of_pos_right hc hD'
+      have h2 : 0 ≤ D * (R - (D + tol)) := mul_nonneg hD.1 (by linarith)
+      nlinarith
+    have hneg : D2 - R ≤ 0 := by
+      rw [hid']
+      have := mul_nonpos_of_nonneg_of_nonpos h1l hDR
+      have := mul_nonneg hlam.1.le hq0
+      linarith
+    rw [abs_of_nonpos hneg, abs_of_nonpos hDR, hid']
+    have := mul_le_mul_of_nonneg_left hq2 hlam.1.le
+    nlinarith
+  have hb5 : |D2 - R| ≤ max |D - R| tol := by
+    rcases le_total R (D + tol) with h | h
+    · have h3 := hb3 h
+      have ha : |D - R| ≤ max |D - R| tol := le_max_left _ _
+      have hbm : tol ≤ max |D - R| tol := le_max_right _ _
+      have : (1 - lam) * |D - R| + lam * tol ≤ (1 - lam) * max |D - R| tol + lam * max |D - R| tol :=
+        add_le_add (mul_le_mul_of_nonneg_left ha h1l) (mul_le_mul_of_nonneg_left hbm hlam.1.le)
+      calc |D2 - R| ≤ (1 - lam) * |D - R| + lam * tol := h3
+        _ ≤ (1 - lam) * max |D - R| tol + lam * max |D - R| tol := this
+        _ = max |D - R| tol := by ring
+    · exact (hb4 h).trans (le_max_left _ _)
+  refine ⟨hid, ?_, hb3, hb4, hb5, pairStep_midpoint lam R D tol yi yj⟩
+  have : lam * tol * (R / (D + tol)) = lam * q := by rw [hq]; ring
+  rw [this]
+  exact hb2
+
+/-- non-vacuity: the hypotheses are met, e.g. by two points at distance 1 on a line, target distance 2 -/
+example : ∃ (yi yj : Vec 1 ℚ) (D D2 : ℚ),
+    (0 ≤ D ∧ D * D = sqNorm (vsub yi yj)) ∧
+    (0 ≤ D2 ∧ D2 * D2 = sqNorm (vsub (pairStep (1/2) 2 D 1 yi yj).1 (pairStep (1/2) 2 D 1 yi yj).2)) :=
+  ⟨fun _ => 1, fun _ => 0, 1, 1, by norm_num [sqNorm, sumFin, vsub],
+    by norm_num [sqNorm, sumFin, vsub, pairStep, moveI, moveJ, scaleOf]⟩
+
+/-- An isometric pair (`D = R`: the embedded distance equals the target) is a fixed point up to the regulariser:
+    each coordinate of either point moves by at most `λ·tol/2`, which vanishes as `tol → 0`; and for `tol = 0`
+    (with `D > 0`) the pair does not move at all. -/
+theorem spe_fixed_point (lam R D tol : K) (yi yj : Vec d K)
+    (hlam : 0 ≤ lam) (htol : 0 ≤ tol) (hpos : 0 < D + tol)
+    (hD : 0 ≤ D ∧ D * D = sqNorm (vsub yi yj)) (hiso : D = R) :
+    (∀ c, |(pairStep lam R D tol yi yj).1 c - yi c| ≤ lam / 2 * tol ∧
+          |(pairStep lam R D tol yi yj).2 c - yj c| ≤ lam / 2 * tol) ∧
+    (tol = 0 → pairStep lam R D tol yi yj = (yi, yj)) := by
+  subst hiso
+  have hs : scaleOf D D tol = -(tol / (D + tol)) := by
+    unfold scaleOf
+    field_simp
+    ring
+  have hbound : ∀ c, |lam / 2 * scaleOf D D tol * vsub yi yj c| ≤ lam / 2 * tol := by
+    intro c
+    have hc := abs_coord_le (vsub yi yj) D hD.1 hD.2 c
+    have hfrac : tol / (D + tol) * |vsub yi yj c| ≤ tol := by
+      have h1 : tol / (D + tol) * |vsub yi yj c| ≤ tol / (D + tol) * (D + tol) :=
+        mul_le_mul_of_nonneg_left (by linarith) (div_nonneg htol hpos.le)
+      have h2 : tol / (D + tol) * (D + tol) = tol := by field_simp
+      linarith
+    rw [hs, abs_mul, abs_mul, abs_neg, abs_of_nonneg (div_nonneg htol hpos.le),
+      abs_of_nonneg (by positivity : 0 ≤ lam / 2)]
+    calc lam / 2 * (tol / (D + tol)) * |vsub yi yj c| = lam / 2 * (tol / (D + tol) * |vsub yi yj c|) := by ring
+      _ ≤ lam / 2 * tol := mul_le_mul_of_nonneg_left hfrac (by positivity)
+  constructor
+  · intro c
+    have h := hbound c
+    constructor
+    · have : (pairStep lam D D tol yi yj).1 c - yi c = lam / 2 * scaleOf D D tol * vsub yi yj c := by
+        simp only [pairStep, moveI]; push_cast; ring
+      rw [this]; exact h
+    · have : (pairStep lam D D tol yi yj).2 c - yj c = -(lam / 2 * scaleOf D D tol * vsub yi yj c) := by
+        simp only [pairStep, moveJ]; push_cast; ring
+      rw [this, abs_neg]; exact h
+  · intro h0
+    subst h0
+    have hs0 : scaleOf D D 0 = 0 := by rw [hs]; simp
+    ext c
+    · simp [pairStep, moveI, hs0]
+    · simp [pairStep, moveJ, hs0]
+
+end algebra
+
+/-! ## Random Projection and Factor Analysis -/
+section projections
+open TapkeeVerif.RandProj TapkeeVerif.Fa
+variable {K : Type} [Field K] [CharZero K] {N D d : Nat}
+
+/-- Same Gaussian stream (and the same oracle value for `sqrt(D)`) ⇒ translating every sample by `t` does not
+    change the Random-Projection embedding.  Every stream, every `N` (including 0), every shift. -/
+theorem rp_translation_invariant (gauss : Nat → K) (sqrtD : K) (X : Mat N D K) (t : Vec D K) :
+    embed (d := d) gauss sqrtD (translate X t) = embed gauss sqrtD X := by
+  rw [embed_eq, embed_eq, centre_translate]
+
+/-- The embedding is (centred samples) × (the matrix the Gaussian stream produced) — a matrix that does not depend
+    on the data — and therefore linear in the centred data. -/
+theorem rp_is_linear_in_centred_data (gauss : Nat → K) (sqrtD : K) (X : Mat N D K) :
+    embed (d := d) gauss sqrtD X = Mat.mul (centre X) (gaussianMatrix D d gauss sqrtD) ∧
+    ∀ (a b : K) (X₁ X₂ : Mat N D K), (∀ i c, centre X i c = a * centre X₁ i c + b * centre X₂ i c) →
+      ∀ i j, embed (d := d) gauss sqrtD X i j
+        = a * embed (d := d) gauss sqrtD X₁ i j + b * embed (d := d) gauss sqrtD X₂ i j := by
+  refine ⟨embed_eq gauss sqrtD X, ?_⟩
+  intro a b X₁ X₂ h i j
+  rw [embed_eq, embed_eq, embed_eq]
+  exact mul_linear a b (centre X₁) (centre X₂) (centre X) _ h i j
+
+/-- Factor Analysis with ANY EM map (the code's step, with its inverses / determinant / log as arbitrary oracles,
+    is one instance), any initial loading matrix (any `Random()` stream) and any iteration bound: translating every
+    sample by `t` does not change the embedding. -/
+theorem fa_translation_invariant
+    (em : DMat N D K → EmState K D d → Nat → EmState K D d × Bool)
+    (A0 : DMat D d K) (maxIt : Nat) (X : Mat N D K) (t : Vec D K) :
+    embedWith em A0 maxIt (translate X t) = embedWith em A0 maxIt X := by
+  unfold embedWith
+  rw [centre_translate]
+
+/-- and the output is (centred samples) × (fitted loading matrix) -/
+theorem fa_is_centred_times_loading
+    (em : DMat N D K → EmState K D d → Nat → EmState K D d × Bool)
+    (A0 : DMat D d K) (maxIt : Nat) (X : Mat N D K) :
+    ∃ A : Mat D d K, (embedWith em A0 maxIt X).get = Mat.mul (centre X) A := by
+  refine ⟨(emLoop (em (DMat.ofFn (centre X))) maxIt 0 (A0, DMat.ofFn Mat.one)).1.get, ?_⟩
+  simp only [embedWith, DMat.get_ofFn]
+
+end projections
 end TapkeeVerif.C19
